@@ -17,10 +17,10 @@ def Coherent (P : Params V) (T : Tables) (w : World V) : Prop :=
 def LooseEmpty (w : World V) : Prop :=
   ∀ o, attached w o = false → ∀ name sk, (cacheOf w o).get? name sk = none
 
-/-- only registered names are cached -/
+/-- only registered names are cached, and factories that take no keyword arguments only under `None` -/
 def CachedRegistered (T : Tables) (w : World V) : Prop :=
   ∀ o name sk v, (cacheOf w o).get? name sk = some v →
-    (facsOf T w.regs o.cls).any (fun p => p.1 = name) = true
+    (facsOf T w.regs o.cls).any (fun p => p.1 = name) = true ∧ (acceptsKw name = false → sk = none)
 
 /-- run-time registrations carry the default destructive set -/
 def RegsDefault (T : Tables) (w : World V) : Prop :=
@@ -132,6 +132,7 @@ def covList (T : Tables) : List Bool :=
    (T.postsOf "Contour" "move").contains "Contour.PointsChanged",
    (T.factoriesOf "Contour").all (fun p => boundsNames.contains p.1 || p.2.hit "Contour.PointsChanged"),
    covCell T "Contour" .attr (moveNotifs T),
+   boundsNames.all (isBuiltin T "Contour"),
    compMutators.all (fun p => covCell T "Component" p.2 (T.postsOf "Component" p.1)),
    covCell T "Component" .pts (T.postsOf "Component" "_set_baseGlyph"),
    glyphOutlineMethods.all (covGlyphOutline T),
